@@ -86,6 +86,15 @@ def directed(rng):
         res.append(("offset_to_next = %d on a packet skipped by the filter" % bad, good + other + bytes(broken) + good, ["-f", "0"]))
     res.append(("payload of 0xFF only", page([b"\xff" * 10] * 4, ib)))
     res.append(("unknown system id", page([its.ihw(7), tdh, its.tdt(1)], ib, sysid=rng.choice([0, 1, 2, 9, 40, 254]))))
+    # scale (stored as a recipe, expanded in the worker): error storms beyond every display / bookkeeping threshold
+    def rdh_only(i, stop, bc=0xFFF, link=8):
+        return R.pack(dict(R.DEFAULT, fee_id=ib, link_id=link, pages_counter=i & 1 if stop is None else 0, stop_bit=(i & 1) if stop is None else stop, orbit=5 + i // 2, bc=bc, system_id=32,
+                           offset_to_next=64, memory_size=64))
+    res.append(("storm: 3000 RDHs with an error each and no closed HBF (stop bit never set)", ("repeat", b"".join(rdh_only(i, 0) for i in range(100)), 30)))
+    res.append(("storm: 3000 RDHs with an error each and no closed HBF, muted", ("repeat", b"".join(rdh_only(i, 0) for i in range(100)), 30), ["-m"]))
+    res.append(("storm: 200 000 RDHs with an error each, error cap, filter and ignored -o", ("repeat", b"".join(rdh_only(i, None) for i in range(1000)), 200),
+                ["-f", "8", "-o", "IGNORED_OUT", "-e", str(rng.choice([1000, 2000, 3000]))]))
+    res.append(("storm: 200 000 RDHs with an error each, large error cap", ("repeat", b"".join(rdh_only(i, None) for i in range(1000)), 200), ["-e", str(rng.choice([4097, 70000])), "-m"]))
     return res
 
 
@@ -160,10 +169,15 @@ def one_case(args):
     fixed_opts = None
     if case < len(dir_inputs) * len(MODE_ARGS):
         name, data = dir_inputs[case // len(MODE_ARGS)][:2]
+        if isinstance(data, tuple) and data[0] == "repeat":
+            data = data[1] * data[2]
         mode = MODE_ARGS[case % len(MODE_ARGS)]
         src = "directed: " + name
         if len(dir_inputs[case // len(MODE_ARGS)]) > 2:
-            fixed_opts = dir_inputs[case // len(MODE_ARGS)][2] + (["-o", "stdout"] if mode == ["WRITER"] else [])
+            fixed_opts = dir_inputs[case // len(MODE_ARGS)][2] + (["-o", "stdout"] if mode == ["WRITER"] and "-o" not in dir_inputs[case // len(MODE_ARGS)][2] else [])
+            fixed_opts = [os.path.join(wd, "c%d.ignored" % case) if a == "IGNORED_OUT" else a for a in fixed_opts]
+            if mode == ["WRITER"] and not any(a in ("-f", "-F", "-s") for a in fixed_opts):
+                fixed_opts = ["-f", "8"] + fixed_opts        # (filtered writing needs a filter: without one the command line is not a valid combination)
     else:
         mode = rng.choice(MODE_ARGS)
         if r0 < 0.15:
